@@ -306,7 +306,10 @@ func (m *model) cleanNext() (string, string, bool) {
 			best, found = k, true
 		}
 	}
-	return best, v[best], found
+	if !found {
+		return "", "", false // (the empty string is a real key: do not look it up)
+	}
+	return best, v[best], true
 }
 
 // ---------- real environment
@@ -543,7 +546,7 @@ type node struct {
 func main() {
 	c := core.New("C22", "model_checking")
 	quick := c.Quick()
-	wkeys := []string{"a", "ab", "a\xff", "b"}
+	wkeys := []string{"a", "ab", "a\xff", "b", ""} // the empty key is a legal key (and the smallest one)
 	depth := 4
 	maxStates := 60000
 	if !quick {
@@ -572,7 +575,7 @@ func main() {
 	}
 	ops = append(ops, op{Kind: "batch", B: nil})
 	ops = append(ops, op{Kind: "flush"}, op{Kind: "drop"}, op{Kind: "initunder"})
-	for _, k := range []string{"a", "ab", "b"} {
+	for _, k := range []string{"a", "ab", "b", ""} {
 		ops = append(ops, op{Kind: "uput", K: k, V: "u"}, op{Kind: "udel", K: k})
 	}
 	ops = append(ops, op{Kind: "snap"}, op{Kind: "snaprel"})
